@@ -141,6 +141,11 @@ type Exec struct {
 	TwoRunOnly   bool   // keep only the two-run obligations of the instance
 	ConcIdx        bool   // replace a symbolic array index by a constant when the path condition admits only one value (two solver calls per site, cached)
 	concIdxMemo    map[[2]int]*Term
+	RecvLimit      int // select model: total number of receives from non-result channels (default 2)
+	selCount       int
+	selEvents      []selEvent
+	selTaken       map[[2]int]*Term
+	mergeA, mergeB, mergeN *State
 	InitIncomplete string // non-empty: the package initialiser could not be executed completely (reason)
 	MapReverse   bool   // iterate maps with concrete keys in descending instead of ascending key order
 	SymPrefix    string // prefix of input names (the "other run" gets its own inputs)
@@ -454,6 +459,10 @@ func (e *Exec) merge2(a, b *State) *State {
 	}
 	c := a.G
 	n := &State{G: e.S.Or(a.G, b.G), Mem: make(map[int]Val, len(a.Mem)), Regs: make(map[ssa.Value]Val, len(a.Regs))}
+	// slices that point to different backing arrays on the two sides are merged into a fresh array (see mergeSlices)
+	pa, pb, pn := e.mergeA, e.mergeB, e.mergeN
+	e.mergeA, e.mergeB, e.mergeN = a, b, n
+	defer func() { e.mergeA, e.mergeB, e.mergeN = pa, pb, pn }()
 	for k, va := range a.Mem {
 		if vb, ok := b.Mem[k]; ok {
 			n.Mem[k] = e.mergeVal(c, va, vb)
